@@ -9,6 +9,7 @@
 (*                       builder._parse_tag_expression_v1 (string: split() *)
 (*                       into arguments; list: the arguments as given)     *)
 (*   AutoDetect          builder._select_tag_expression_parser4auto        *)
+(*   HistStep            Configuration.setup_tag_expression: use() + build *)
 (*   V1Run/V2Run/AutoRun make_tag_expression(x, V1 / V2 / AUTO_DETECT)     *)
 (*                       followed by .check(S) for every S of SS           *)
 (*                       (v2 parsing and Eval are those of TagExpr, C07)   *)
@@ -137,6 +138,18 @@ V2Run(in, SS) == LET p == V2Parsed(in) IN
 AutoRun(in, SS) == LET sel == AutoDetect(in) IN
                    IF sel = "error" THEN Failed("TagExpressionError")
                    ELSE IF sel = "v1" THEN V1Run(in, SS) ELSE V2Run(in, SS)
+
+\* ---------------------------------------------------------------- (S) Configuration.setup_tag_expression: histories in one process
+\* The process-wide TagExpressionProtocol._current is the only state shared by the constructions of a process:
+\* every construction first selects its own protocol (TagExpressionProtocol.use(self.tag_expression_protocol),
+\* unconditionally) and then builds its expression with make_tag_expression(tags), which reads that global.
+\* c = [proto |-> "v1"|"v2"|"strict"|"auto_detect"|"default", in |-> input];  h = [cur, cons, results]
+Eff(proto) == CASE proto = "v1" -> "v1" [] proto \in {"v2", "strict"} -> "v2" [] OTHER -> "auto"    \* STRICT = V2, DEFAULT = AUTO_DETECT
+RunAs(cur, in, SS) == CASE cur = "v1" -> V1Run(in, SS) [] cur = "v2" -> V2Run(in, SS) [] OTHER -> AutoRun(in, SS)
+HistInit == [cur |-> "auto", cons |-> <<>>, results |-> <<>>]
+HistStep(h, c, SS) == LET cur2 == Eff(c.proto) IN                                   \* use(): overwrites the global
+                      [cur |-> cur2, cons |-> Append(h.cons, c),
+                       results |-> Append(h.results, RunAs(cur2, c.in, SS))]         \* make_tag_expression(tags): reads it
 
 \* ---------------------------------------------------------------- (P) the documented old-style grammar
 \* a tag name of the v1 universe: no v2 keyword, no wildcard character, none of the v1/v2 syntax characters
